@@ -725,10 +725,14 @@ impl Vm {
         if expr.is_vector() {
             let vector = expr.as_vector().unwrap();
 
-            let new_vector = self.heap.put(VCell::vector(vec![]));
-            lambda.emit(OpCode::MovImmediate);
-            lambda.emit(new_vector);
+            // Every evaluation of the template builds a fresh vector: (vector)
+            let vector_sym = self.heap.put(VCell::symbol("vector")).as_ptr()?;
+            lambda.emit(OpCode::PushImmediate);
+            lambda.emit(VCell::ArgumentCount(0));
+            lambda.emit(OpCode::Mov);
+            lambda.emit(VCell::env_slot(self.globenv.get_binding(vector_sym)));
             lambda.emit(VCell::Acc);
+            lambda.emit(OpCode::CallAcc);
 
             for it in vector {
                 lambda.emit(OpCode::PushAcc);
